@@ -2,6 +2,7 @@ package rules
 
 import (
 	"fmt"
+	"go/token"
 	"go/types"
 	"sort"
 	"strings"
@@ -351,6 +352,43 @@ func (c *Ctx) WatermarkConversions(prop string, s *Slashing, kind string) {
 			}
 		}
 	}
+	// comparisons in the signed domain (`int64(t) <= state.T` behind the bound) need no unsigned view of the watermark: the
+	// "none" marker -1 is below every bounded request value. They stand in for the widenings they replace in the floor.
+	nS := 0
+	for _, fn := range c.P.ModuleFuncs() {
+		if prog.PkgPathOf(fn) != s.Pkg.Pkg.Path() {
+			continue
+		}
+		for _, b := range fn.Blocks {
+			for _, ins := range b.Instrs {
+				bo, ok := ins.(*ssa.BinOp)
+				if !ok {
+					continue
+				}
+				switch bo.Op {
+				case token.LSS, token.LEQ, token.GTR, token.GEQ:
+				default:
+					continue
+				}
+				for _, side := range [][2]ssa.Value{{bo.X, bo.Y}, {bo.Y, bo.X}} {
+					if k, _ := s.stateField(side[0]); k != kind {
+						continue
+					}
+					v := side[1]
+					if lv, isLocal := an.LocalFieldLoad(v); isLocal {
+						v = lv
+					}
+					if cv, isConv := v.(*ssa.Convert); isConv {
+						if k, _ := s.reqField(cv.X); k == kind {
+							nS++
+						}
+					}
+				}
+			}
+		}
+	}
+	c.R.Count("signed_domain_comparisons", nS)
+	nW += nS
 	// one narrowing per watermark field is the principled minimum (the entry's re-assignment after the checks is redundant)
 	floorW, floorN := 2, 2
 	if kind == "prop" {
@@ -472,9 +510,9 @@ func (c *Ctx) StateStoreDiscipline(prop string, s *Slashing, kind string) {
 		if fh[fn] {
 			continue
 		}
-		fa := fs.Store.Addr.(*ssa.FieldAddr)
+		obj := fs.Obj
 		// (c) fresh object in import/export, or in a package helper that only they call
-		if a, ok := fa.X.(*ssa.Alloc); ok && a.Heap && c.onlyCalledFrom(fn, map[*ssa.Function]bool{s.ExportFn: true, s.ImportFn: true}, 2) {
+		if a, ok := obj.(*ssa.Alloc); ok && a.Heap && c.onlyCalledFrom(fn, map[*ssa.Function]bool{s.ExportFn: true, s.ImportFn: true}, 2) {
 			continue
 		}
 		d, known := roleOf[fs.Field]
@@ -484,7 +522,7 @@ func (c *Ctx) StateStoreDiscipline(prop string, s *Slashing, kind string) {
 			continue
 		}
 		// (d)
-		v := fs.Store.Val
+		v := fs.Val
 		cv, isConv := v.(*ssa.Convert)
 		okVal := false
 		if isConv {
@@ -494,7 +532,7 @@ func (c *Ctx) StateStoreDiscipline(prop string, s *Slashing, kind string) {
 		}
 		if !okVal {
 			bad++
-			c.R.Fail(rule, Fn(fn)+":"+fs.Field, c.Pos(fs.Store), "the watermark field "+fs.Field+" is assigned "+an.Term(v)+" rather than the request's "+d.ReqField, fs.Field+" = int64(request "+d.ReqField+")", nil)
+			c.R.Fail(rule, Fn(fn)+":"+fs.Field, c.Pos(fs.Store), "the watermark field "+fs.Field+" is assigned "+termOrZero(v)+" rather than the request's "+d.ReqField, fs.Field+" = int64(request "+d.ReqField+")", nil)
 			continue
 		}
 		target := ssa.Instruction(fs.Store)
@@ -519,7 +557,7 @@ func (c *Ctx) StateStoreDiscipline(prop string, s *Slashing, kind string) {
 		if x != nil {
 			// an updater of the state object (`state.advance(req)`): judged at its call sites - each lies below
 			// [check(... same request ...) == APPROVED] of a function that holds the comparisons
-			if p, isParam := an.Unspill(fa.X).(*ssa.Parameter); isParam && p.Parent() == fn && errResultIndex(fn) < 0 {
+			if p, isParam := an.Unspill(obj).(*ssa.Parameter); isParam && p.Parent() == fn && errResultIndex(fn) < 0 {
 				_, _, rb := reqBase(cv.X)
 				reqP, _ := rb.(*ssa.Parameter)
 				callers := c.staticCallers()[fn]
@@ -572,7 +610,7 @@ func (c *Ctx) StateStoreDiscipline(prop string, s *Slashing, kind string) {
 		}
 		// a check function that writes into its caller's state object must not refuse afterwards: the batch entry
 		// persists every state object whatever the verdict of its position
-		if p, isParam := an.Unspill(fa.X).(*ssa.Parameter); isParam && p.Parent() == fn {
+		if p, isParam := an.Unspill(obj).(*ssa.Parameter); isParam && p.Parent() == fn {
 			k := -1
 			res := fn.Signature.Results()
 			for i := 0; i < res.Len(); i++ {
@@ -687,4 +725,11 @@ func (c *Ctx) onlyCalledFrom(fn *ssa.Function, roots map[*ssa.Function]bool, dep
 		}
 	}
 	return true
+}
+
+func termOrZero(v ssa.Value) string {
+	if v == nil {
+		return "the zero value (or a struct value the analysis cannot read field by field)"
+	}
+	return an.Term(v)
 }
